@@ -15,6 +15,7 @@ import (
 	"github.com/orbs-network/lean-helix-go/spec/types/go/primitives"
 	"github.com/orbs-network/lean-helix-go/spec/types/go/protocol"
 	"github.com/orbs-network/lean-helix-go/state"
+	"github.com/orbs-network/scribe/log"
 )
 
 // ---------------------------------------------------------------------------------------------
@@ -661,4 +662,60 @@ func (n *Node) retryWouldCollide() bool {
 		}
 	}
 	return false
+}
+
+// ---------------------------------------------------------------------------------------------
+// Logger fake for the RT focus node. Config.Logger is a consumer-side seam: a consumer's logger may be slow. The
+// harness can arm it so that the k-th next log line written by the worker goroutine blocks until released (a yield
+// point in the middle of whatever the worker is doing: after it took an item from a channel and before it acted on
+// it, between two storage calls, ...). Lines of the main loop and of API-caller goroutines are never held (the
+// properties assume those do not block).
+
+type SimLogger struct{ n *Node }
+
+func (l *SimLogger) Debug(format string, args ...interface{}) { l.n.logLine(format) }
+func (l *SimLogger) Info(format string, args ...interface{})  { l.n.logLine(format) }
+func (l *SimLogger) Error(format string, args ...interface{}) { l.n.logLine(format) }
+func (l *SimLogger) ConsensusTrace(format string, fields ...*log.Field) {}
+
+func (n *Node) logLine(line string) {
+	if n.logYieldIn <= 0 || n.w.recovering || !n.alive {
+		return
+	}
+	// never hold the main loop, API-caller goroutines, or ValidateBlockConsensus (called by consumer threads - here the
+	// harness goroutine itself and other nodes' commit callbacks)
+	if containsStr(line, "MAINLOOP") || containsStr(line, "UpdateState() ") || containsStr(line, "HandleConsensusRawMessage()") || containsStr(line, "MainLoop.Run()") || containsStr(line, "ValidateBlockConsensus") {
+		return
+	}
+	n.logYieldIn--
+	if n.logYieldIn > 0 {
+		return
+	}
+	w := n.w
+	g := &Gate{node: n, kind: "log", height: n.height(), ctx: n.ctx, release: make(chan GateVerdict, 1), started: w.seq, ignoresCtx: true}
+	n.gates = append(n.gates, g)
+	w.stats.Fault("worker-held-at-log-line")
+	w.ev("log-yield n%d at %q", n.idx, logKey(line))
+	<-g.release // a logger knows no context: released by the harness (gate-release action, or shutdown drain)
+	n.removeGate(g)
+}
+
+// logKey: the stable part of a log line (timestamps and ids stripped) for traces.
+func logKey(line string) string {
+	for i := 0; i+3 < len(line); i++ {
+		if line[i] == 'I' && line[i+1] == 'D' && line[i+2] == '=' {
+			j := i + 3
+			for j < len(line) && line[j] != ' ' {
+				j++
+			}
+			if j+1 < len(line) {
+				line = line[j+1:]
+			}
+			break
+		}
+	}
+	if len(line) > 60 {
+		line = line[:60]
+	}
+	return line
 }
